@@ -334,6 +334,7 @@ void once_fn(void *ud) {
 void body(Ctx &c, int id) {
     for (const sim::Op &op : c.plan->ops) {
         if (op.thr != id) continue;
+        if (c.plan->get("poison_errors", 0)) hx::poison_errors(c.plan->seed, sim::seq());
         switch (op.kind) {
             case OP_YIELD: sim::yield(); break;
             case OP_SLEEP: sim::sleep_ns((uint64_t)op.a); break;
